@@ -35,8 +35,8 @@ def check(tree, rep, tier='quick', seed=0):
                        'sibling symmetry: the person-specific inputs and lines a definition reads are closed under exchanging the two (R16.5). Withholding moves '
                        'refund-minus-owed one for one: each withholding source enters its line, and each link of the chain 25a/b/c -> 25d -> 33, with coefficient '
                        'exactly 1 on every value path (linear normal forms), and total tax and its ancestors are outside the taint closure of the withholding '
-                       'sources (R16.3, R16.4); with the C15 identity 34 - 37 = 33 - 24 the relation follows. A necessary condition of "a larger deduction never raises tax": where a yes/no line elects between two amounts by comparing them, the amount used when it is false is, per filing status, the very amount it compares against (R16.6). State tax withheld reaches the NC return exactly once for every owner value of the form it is reported on (R16.7: the owner and state tests of D-400 lines 20a / 20b are evaluated per member of the owner enumeration).')
-    rep.rule_text = 'obligation = one definition (R16.1/2/5), one (year, chain link, source) (R16.3), one (year, tax line) (R16.4), one elected amount line (R16.6), one (year, NC withholding box, owner) case (R16.7)'
+                       'sources (R16.3, R16.4); with the C15 identity 34 - 37 = 33 - 24 the relation follows. A necessary condition of "a larger deduction never raises tax": where a yes/no line elects between two amounts by comparing them, the amount used when it is false is, per filing status, the very amount it compares against (R16.6). State tax withheld reaches the NC return exactly once for every owner value of the form it is reported on (R16.7: the owner and state tests of D-400 lines 20a / 20b are evaluated per member of the owner enumeration). The two monotonicity relations are decided as far as the provable directions go (R16.8): with everything else fixed, AGI, the deduction, taxable income, the tax and - for deductions in 2022 and 2023 - the total tax move in one direction when wages or one deductible expense grow; the directions provable on the baseline are frozen and must stay provable (derivative candidate forms with unfolding, region-wise slope proofs by exact Fourier-Motzkin, continuity across input-dependent decisions).')
+    rep.rule_text = 'obligation = one definition (R16.1/2/5), one (year, chain link, source) (R16.3), one (year, tax line) (R16.4), one elected amount line (R16.6), one (year, NC withholding box, owner) case (R16.7), one (year, input, line) direction (R16.8)'
     rep.exhaustive = True
     rep.assumptions = ['NOT decided (no sound static argument in reach): "more wages never lower total tax" and "a larger deduction never raises it" - monotonicity through data-dependent switches (itemize vs standard, credit phase-outs, not-implemented cliffs)',
                        'floating-point re-association of sums of cent-rounded amounts under renumbering is not modelled']
@@ -154,6 +154,9 @@ def check(tree, rep, tier='quick', seed=0):
                        sample={'line': f'{y}/{l["line"]}', 'source': src})
     n_el = election_consistency(an, rep)
     n_nc = nc_withholding_split(an, rep)
+    n_mono = monotone_directions(an, rep, tier)
+    import multiprocessing as _mp
+    rep.floor('frozen directions re-proved', n_mono, 40 if _mp.current_process().daemon else 60 if tier == 'quick' else 300)
     rep.floor('(NC withholding box, owner) cases decided', n_nc, 40)
     rep.floor('amount lines chosen by a comparing yes/no line', n_el, 3)
     rep.floor('definitions checked for renumbering invariance', n_defs, 2200)
@@ -373,3 +376,126 @@ def _eval_cond(c, owner_atom, member):
                 return None
             return r if c.op == 'eq' else (not r)
     return None
+
+
+# ---------------------------------------------------------------- R16.8 directions (more wages / a larger deduction)
+MONO_GOALS = ['1040.11', '1040.12', '1040.12a', '1040.15', '1040.16', '1040.18', '1040.22', '1040.24',
+              'nc_d-400.14', 'nc_d-400.15', 'nc_d-400.19']
+MONO_INPUTS_QUICK = ['v:w-2:*.box_1', 'i:1040_sa.charitable_cash_check', 'i:1040_sa.medical_dental_expenses']
+MONO_INPUTS_ALL = MONO_INPUTS_QUICK + [
+    'i:1040_sa.state_local_real_estate_taxes', 'i:1040_sa.state_local_personal_property_taxes', 'i:1040_sa.other_taxes_amount',
+    'i:1040_sa.other_mortgage_interest', 'i:1040_sa.charitable_other_than_cash_check', 'i:1040_sa.charitable_carryover',
+    'i:1040_sa.other_itemized', 'v:1098:*.box_1', 'i:1040_s1.educator_expenses', 'i:1040_s1.alimony_paid',
+    'i:1040_s1.traditional_ira_deduction', 'i:8889:you.hsa_contributions']
+_MONO_AN = None
+
+
+def _mono_group(args):
+    """directions of the goal lines with respect to one input in one year -> {line: '+', '-', '0', '?'}"""
+    y, x = args
+    from ..mono import Mono
+    from ..relational import Prover
+    from ..slope import SlopeProver
+    from .c15 import sign_model
+    from .c02 import zero_lines
+    an = _MONO_AN
+    cdefs, nn, _wit, _mk = sign_model(an, y)
+    zero = zero_lines(an, y)
+    all_defs = {f'v:{d.fr.name}.{d.name}': d for d in an.defs.values() if d.year == y}
+
+    def pf():
+        pr = Prover(cdefs, nn, zero)
+        pr.defs_all = all_defs
+        return pr
+    m = Mono(an, y, x, nn, pf)
+
+    def sf(mono):
+        def lemma(a):
+            s = mono.sign_memo.get(a)
+            return s if s in ('+', '-', '0') else None
+
+        def is_input(a):
+            d = mono.defs.get(a)
+            return d is None or d.fr.cls.is_sub_named('InputForm')
+        pr = SlopeProver(mono.defs, nn, zero, x, lemma, is_input)
+        pr.defs_all = all_defs
+        return pr
+    m.slope_factory = sf
+    out = {}
+    for g in MONO_GOALS:
+        k = 'v:' + g
+        if k in m.defs:
+            out[g] = m.sign_of_line(k)
+    return (y, x, out, {g: m.why.get('v:' + g, '') for g in out if out[g] == '?'})
+
+
+def mono_results(an, years, inputs):
+    import multiprocessing
+    global _MONO_AN
+    _MONO_AN = an
+    tasks = [(y, x) for y in years for x in inputs if _input_exists(an, y, x)]
+    if multiprocessing.current_process().daemon:
+        # inside a self-test worker (no nested pools): the two leading inputs only
+        return [_mono_group(t) for t in tasks if t[1] in MONO_INPUTS_QUICK[:2]]
+    if len(tasks) < 2:
+        return [_mono_group(t) for t in tasks]
+    ctx = multiprocessing.get_context('fork')
+    with ctx.Pool(min(16, len(tasks))) as pool:
+        return pool.map(_mono_group, tasks)
+
+
+def _input_exists(an, y, x):
+    kind, rest = x.split(':', 1)
+    fpart, _, name = rest.rpartition('.')
+    fname, _, inst = fpart.partition(':')
+    fr = an.cat.find(y, fname, None if inst in ('', '*') else inst) or (an.cat.find(y, fname, 0) if inst == '*' else None)
+    if fr is None:
+        return False
+    return name in (fr.input_map() if kind == 'i' else fr.field_map())
+
+
+def monotone_directions(an, rep, tier):
+    """R16.8 - with everything else fixed, adjusted gross income, the deduction taken, taxable income, the tax and the
+    total tax move in one direction (or not at all) when one amount input grows.  Decided by sa/mono.py + sa/slope.py
+    (candidate derivative forms with unfolding, region-wise slope proofs by exact Fourier-Motzkin, continuity across
+    input-dependent decisions); the directions provable on the confirmed baseline are frozen in sa/data/monotone_lines.json
+    and must stay provable.  Directions that are not provable on the baseline are listed with the reason (notes)."""
+    frozen = load_data('monotone_lines.json')
+    inputs = MONO_INPUTS_QUICK if tier == 'quick' else MONO_INPUTS_ALL
+    res = mono_results(an, list(an.cat.years), inputs)
+    n = 0
+    got = {}
+    for (y, x, out, why) in res:
+        for g, s in out.items():
+            got[(y, x, g)] = (s, why.get(g, ''))
+    for f in frozen['facts']:
+        if f['input'] not in inputs:
+            continue
+        k = (f['year'], f['input'], f['line'])
+        if k not in got:
+            rep.notes.append(f'frozen direction {k}: line or input no longer exists')
+            continue
+        n += 1
+        s, why = got[k]
+        word = {'+': 'never falls', '-': 'never rises', '0': 'does not move'}
+        rep.ob('R16.8', f'{f["year"]}/{f["line"]}<-{f["input"]}', s == f['dir'],
+               f'{f["year"]} {f["line"]} {word[f["dir"]]} when {f["input"]} grows - that was provable and no longer is '
+               f'(now: {"no direction provable" if s == "?" else word.get(s, s)}{"; " + why if why else ""}): '
+               + ('more of it can lower the tax' if f['input'].startswith('v:w-2') else 'a larger deductible expense can raise the tax'), '')
+    for k, (s, why) in sorted(got.items()):
+        if s == '?':
+            rep.notes.append(f'{k[0]}: direction of {k[2]} in {k[1]} not decided ({why[:120]})')
+    return n
+
+
+def regenerate_monotone():
+    from ..src import Tree
+    from ..lines import get_analysis
+    an = get_analysis(Tree())
+    res = mono_results(an, list(an.cat.years), MONO_INPUTS_ALL)
+    facts = []
+    for (y, x, out, why) in sorted(res, key=lambda r: (r[0], r[1])):
+        for g, s in sorted(out.items()):
+            if s in ('+', '-', '0'):
+                facts.append({'year': y, 'input': x, 'line': g, 'dir': s})
+    return {'comment': 'R16.8: directions provable on the confirmed baseline (sa.checks.c16.regenerate_monotone)', 'facts': facts}
